@@ -24,7 +24,7 @@ def heredoc_cmd(rnd):
         q = rnd.choice(["", "", "'", "\\", '"', "mid"])
         dash = rnd.random() < 0.3
         w = {"": d, "'": "'%s'" % d, "\\": "\\" + d, '"': '"%s"' % d, "mid": d[0] + "''" + d[1:]}[q]
-        ops.append(("<<-" if dash else "<<") + w)
+        ops.append(rnd.choice(["", "", "", "3", "0", "12"]) + ("<<-" if dash else "<<") + w)
         tab = "\t" if dash and rnd.random() < 0.7 else ""
         lines = []
         for _ in range(rnd.randint(0, 3)):
@@ -85,7 +85,8 @@ class P:
 
         def impl_ok(c, o):
             return o.startswith(("ok", "skip"))
-        return [{"name": "heredoc-streams", "harness": "stream", "driver": None, "cases": hcases, "impl_ok": impl_ok,
+        # (these lines are complete commands by construction: one that is rejected on its own is a failure, not a skip)
+        return [{"name": "heredoc-streams", "harness": "stream", "driver": None, "cases": hcases, "impl_ok": lambda c, o: o.startswith("ok"),
                  "nontrivial": lambda c: True, "distribution": {"sequences": len(hcases)}},
                 {"name": "streams", "harness": "stream", "driver": None, "cases": cases, "impl_ok": impl_ok,
                  "nontrivial": lambda c: any(unhx(h).decode("utf-8", "replace").count("\n") > 1 for h in c.split(",")),
